@@ -1178,9 +1178,7 @@ def _oauth_signature(
     base_elems = []
     base_elems.append(method.upper())
     base_elems.append(normalized_url)
-    base_elems.append(
-        "&".join(f"{k}={_oauth_escape(str(v))}" for k, v in sorted(parameters.items()))
-    )
+    base_elems.append(_oauth_normalized_parameters(parameters))
     base_string = "&".join(_oauth_escape(e) for e in base_elems)
 
     key_elems = [escape.utf8(consumer_token["secret"])]
@@ -1209,9 +1207,7 @@ def _oauth10a_signature(
     base_elems = []
     base_elems.append(method.upper())
     base_elems.append(normalized_url)
-    base_elems.append(
-        "&".join(f"{k}={_oauth_escape(str(v))}" for k, v in sorted(parameters.items()))
-    )
+    base_elems.append(_oauth_normalized_parameters(parameters))
 
     base_string = "&".join(_oauth_escape(e) for e in base_elems)
     key_elems = [escape.utf8(urllib.parse.quote(consumer_token["secret"], safe="~"))]
@@ -1228,6 +1224,15 @@ def _oauth_escape(val: str | bytes) -> str:
     if isinstance(val, unicode_type):
         val = val.encode("utf-8")
     return urllib.parse.quote(val, safe="~")
+
+
+def _oauth_normalized_parameters(parameters: dict[str, Any]) -> str:
+    # RFC 5849 section 3.4.1.3.2: names and values are both encoded, and the
+    # pairs are sorted by encoded name (then encoded value).
+    pairs = sorted(
+        (_oauth_escape(str(k)), _oauth_escape(str(v))) for k, v in parameters.items()
+    )
+    return "&".join(f"{k}={v}" for k, v in pairs)
 
 
 def _oauth_parse_response(body: bytes) -> dict[str, Any]:
